@@ -45,6 +45,7 @@ type World struct {
 	tparams     map[string]types.Type // type parameters of the generic function being verified
 	tsubst      map[string]types.Type // while a generic callee's contract is applied: its type parameters' instances
 	writeOnceC  map[*ssa.Global]bool  // cache of writeOnce
+	closureAlias map[string]string    // closure contract name -> the closure it was re-bound to (see rebindClosures)
 	assumptions map[string]bool // collected textual assumptions for evidence
 	errors      []string
 }
@@ -859,4 +860,63 @@ func (w *World) writeOnce(g *ssa.Global) bool {
 	}
 	w.writeOnceC[g] = res
 	return res
+}
+
+// rebindClosures: a closure contract is keyed by the closure's ordinal inside its parent (f$2). When it declares the
+// closure's parameter names (`params i, j`) and the closure with that ordinal does not have them any more, the unique
+// sibling closure (any depth) that has them and no contract of its own takes the contract.
+func (w *World) rebindClosures(idx map[string]*ssa.Function) {
+	w.closureAlias = map[string]string{}
+	names := func(f *ssa.Function) []string {
+		var out []string
+		for _, p := range f.Params {
+			out = append(out, p.Name())
+		}
+		return out
+	}
+	same := func(a, b []string) bool {
+		if len(a) != len(b) {
+			return false
+		}
+		for i := range a {
+			if a[i] != b[i] {
+				return false
+			}
+		}
+		return true
+	}
+	var keys []string
+	for n, c := range w.contracts {
+		if len(c.Params) > 0 && strings.Contains(n, "$") {
+			keys = append(keys, n)
+		}
+	}
+	sort.Strings(keys)
+	for _, n := range keys {
+		c := w.contracts[n]
+		if f := idx[n]; f != nil && same(names(f), c.Params) {
+			continue
+		}
+		parentName := n[:strings.Index(n, "$")]
+		parent := idx[parentName]
+		if parent == nil {
+			continue
+		}
+		var cands []*ssa.Function
+		var walk func(f *ssa.Function)
+		walk = func(f *ssa.Function) {
+			for _, a := range f.AnonFuncs {
+				if _, has := w.contracts[a.String()]; (!has || a.String() == n) && same(names(a), c.Params) {
+					cands = append(cands, a)
+				}
+				walk(a)
+			}
+		}
+		walk(parent)
+		if len(cands) == 1 && cands[0].String() != n {
+			delete(w.contracts, n)
+			w.contracts[cands[0].String()] = c
+			w.closureAlias[n] = cands[0].String()
+		}
+	}
 }
